@@ -9,7 +9,7 @@
               reachable from exactly one singly-instantiated thread entry
   C04.ORPHAN  every semaphore / condition variable some kernel waits on is posted / set by some other runtime function
 """
-from engine.facts import pstr, strip, callee_name, subexprs, fields_in, last_field, root_of, AnalysisBroken
+from engine.facts import is_lit, pstr, strip, callee_name, subexprs, fields_in, last_field, root_of, AnalysisBroken
 from engine.locks import LockAnalysis
 from engine.classes import Classes
 
@@ -258,6 +258,31 @@ def run(P, rep, tier):
             rep.note('guard candidate (not in the confirmed table): %s accumulated under a lock in %s and without one in %s' %
                      (lf, sorted({n for h, n in ss if h})[:3], sorted({n for h, n in ss if not h})[:3]))
 
+    # ---------------- REARM: per-picture accumulators live in pooled (recycled) picture control sets; a counter that is only
+    # ever incremented under its mutex and never put back to its start value by pipeline code makes the "last finisher"
+    # test (cnt == total) fire at the wrong segment from the object's second use on
+    POOLED = ('PictureControlSet', 'PictureParentControlSet', 'EntropyTileInfo')
+    resets = {}
+    for f in enc:
+        if f not in C.kernel:
+            continue
+        for ev in f.events(('st', 'call')):
+            e = ev['e']
+            if ev['k'] == 'st' and e[0] == 'a' and e[1] == '=' and is_lit(e[3]):
+                lf = last_field(strip(e[2]))
+                if lf in GUARDS:
+                    resets.setdefault(lf, set()).add(f.name)
+            elif ev['k'] == 'call' and callee_name(e) in ('memset', 'svt_memset') and e[2] and is_lit(e[2][1]):
+                lf = last_field(strip(e[2][0]))
+                if lf in GUARDS:
+                    resets.setdefault(lf, set()).add(f.name)
+    for fld in sorted(GUARDS):
+        if fld.split('.', 1)[0] in POOLED:
+            rep.ob('C04.REARM', 'reset:%s' % fld, bool(resets.get(fld)), 'EbPictureControlSet.h',
+                   'accumulator of a pooled per-picture object; put back to a literal by pipeline code in %s' %
+                   (sorted(resets[fld]) if resets.get(fld) else 'NO pipeline function (only accumulated): its completion test misfires on a recycled object'))
+    rep.floor('C04.REARM', 15)
+
     # ---------------- KGLOB
     gl = {g['name']: g for g in P.globals if not g['const'] and not g.get('fnptr')}
     single_entries = single_thread_entries(P)
@@ -319,6 +344,49 @@ def run(P, rep, tier):
         rep.ob('C04.ORPHAN', 'wait:%s' % lf, bool(other), f.loc(ev),
                'waited in %s; posted/set in %s' % (sorted({w[0].name for w in ws}), sorted({p[0].name for p in other}) or 'NO other runtime function'))
     rep.floor('C04.ORPHAN', 4)
+
+    # ---------------- CVRESET: a condition variable that is waited "while val == v" lives in a pooled (recycled) object.
+    # Necessary for the wait to mean anything on the object's 2nd, 3rd ... use: (a) a runtime setter stores a literal != v,
+    # and (b) the value is put back to v on the recycle path, i.e. by *runtime* code (svt_set_cond_var(x, v) or
+    # svt_create_cond_var(x), whose body stores val = v), not only by the one-time constructor.
+    create = P.fn('svt_create_cond_var')
+    create_val = None
+    for ev in create.events(('st',)):
+        e = ev['e']
+        if e[0] == 'a' and e[1] == '=' and last_field(strip(e[2])) == 'CondVar.val' and is_lit(e[3]):
+            create_val = strip(e[3])[1]
+    cv_wait, cv_set, cv_reset = {}, {}, {}
+    for f in P.fns:
+        if f.lib != 'Encoder' or f in C.dead:
+            continue
+        for ev, n in f.calls(('svt_wait_cond_var', 'svt_set_cond_var', 'svt_create_cond_var')):
+            a = ev['e'][2]
+            if not a:
+                continue
+            lf = last_field(strip(a[0])) or pstr(strip(a[0]))
+            lit = strip(a[1])[1] if len(a) > 1 and is_lit(a[1]) else None
+            if n == 'svt_wait_cond_var':
+                cv_wait.setdefault(lf, []).append((f, ev, lit))
+            elif n == 'svt_set_cond_var':
+                cv_set.setdefault(lf, []).append((f, ev, lit))
+            else:
+                cv_reset.setdefault(lf, []).append((f, ev, create_val))
+    for lf, ws in sorted(cv_wait.items()):
+        for f, ev, v in ws:
+            if v is None:
+                rep.ob('C04.CVRESET', 'cv:%s/%s' % (lf, f.name), False, f.loc(ev), 'wait value is not a literal')
+                continue
+            setters = [(g, e2, w) for g, e2, w in cv_set.get(lf, []) if g in C.runtime and w is not None and w != v]
+            resets = [(g, e2, w) for g, e2, w in cv_set.get(lf, []) + cv_reset.get(lf, []) if g in C.runtime and w == v]
+            init_resets = [(g, e2, w) for g, e2, w in cv_set.get(lf, []) + cv_reset.get(lf, []) if g not in C.runtime and w == v]
+            ok = bool(setters) and bool(resets)
+            rep.ob('C04.CVRESET', 'cv:%s/%s' % (lf, f.name), ok, f.loc(ev),
+                   'waited while == %d in %s; released by %s; re-armed to %d at run time by %s%s' % (
+                       v, f.name, sorted({g.name for g, _, _ in setters}) or 'NO runtime setter of another value', v,
+                       sorted({g.name for g, _, _ in resets}) or 'NO runtime function',
+                       (' (only the one-time initialisation in %s: a recycled object keeps the released value and the next wait falls through)'
+                        % sorted({g.name for g, _, _ in init_resets})) if not resets and init_resets else ''))
+    rep.floor('C04.CVRESET', 1)
 
 
 def single_thread_entries(P):
